@@ -38,9 +38,39 @@ def abandon_then_other(rng, allowed):
     return cmds
 
 
+def persistent_guesser(rng, allowed):
+    """failed attempts interleaved with exchanges that succeed and are then abandoned: rejections keep adding up, the
+    server hangs up after the sixth whatever happened in between"""
+    def bad():
+        r = rng.random()
+        if r < 0.4:
+            return A('auth', 'OTHER', 'none', 'empty')
+        if r < 0.7:
+            return A('auth', 'EXTERNAL', 'ok', rng.choice(['other', 'garbage']))
+        return A('auth', 'EXTERNAL', 'bad', 'empty')
+    cmds = []
+    for _ in range(rng.randint(0, 5)):
+        cmds.append(bad())
+    for _ in range(rng.choice([1, 1, 2])):
+        first = rng.choice(['EXTERNAL', 'EXTERNAL', 'ANONYMOUS'])
+        cmds.append(A('auth', first, 'ok' if first == 'EXTERNAL' else 'none', 'same' if first == 'EXTERNAL' else 'empty'))
+        cmds.append(A(rng.choice(['cancel', 'error'])))
+        for _k in range(rng.randint(0, 3)):
+            cmds.append(bad())
+    for _ in range(rng.randint(2, 6)):
+        cmds.append(bad())
+    if rng.random() < 0.5:
+        cmds.append(A('auth', 'EXTERNAL', 'ok', 'same'))
+        cmds.append(A('begin'))
+    return cmds
+
+
 def conversation(rng, allowed):
-    if rng.random() < 0.12:
+    r0 = rng.random()
+    if r0 < 0.12:
         return abandon_then_other(rng, allowed)
+    if r0 < 0.2:
+        return persistent_guesser(rng, allowed)
     cmds = []
     n = rng.choice([1, 2, 3, 4, 6, 9])
     in_cookie = False
